@@ -71,11 +71,10 @@ impl LocalClient {
         // (start > end), before the `end - start` that would underflow
         byte_range matches Some(rg) ==> rg.start <= rg.end && rg.start <= self.file_bytes(self.file_record(*hash)).len(),
     ensures
-        // output == concat(segment bytes)[start .. min(end, len)], written from offset 0; returned length == bytes written
-        /*@C01*/ r matches Ok(p) ==> p.1.offset() == 0,
+        // output image == the previous image with concat(segment bytes)[start .. min(end, len)] written at offset 0; returned length == bytes written
         /*@C01*/ r matches Ok(p) ==> 0 <= req_start(byte_range) <= req_end(byte_range, self.file_bytes(self.file_record(*hash)).len() as int) <= self.file_bytes(self.file_record(*hash)).len(),
-        /*@C01*/ r matches Ok(p) ==> p.1.written() == self.file_bytes(self.file_record(*hash)).subrange(req_start(byte_range), req_end(byte_range, self.file_bytes(self.file_record(*hash)).len() as int)),
-        /*@C01*/ r matches Ok(p) ==> p.0 == p.1.written().len(),
+        /*@C01*/ r matches Ok(p) ==> p.1.content() == write_at(p.1.pre(), 0, self.file_bytes(self.file_record(*hash)).subrange(req_start(byte_range), req_end(byte_range, self.file_bytes(self.file_record(*hash)).len() as int))),
+        /*@C01*/ r matches Ok(p) ==> p.0 == req_end(byte_range, self.file_bytes(self.file_record(*hash)).len() as int) - req_start(byte_range),
 //@ before `let mut writer`
     let ghost segs = file_info.segments@;
     let ghost sb = self.seg_bytes(segs);
